@@ -47,6 +47,8 @@ static Case gen_case ()
 	c.seti ("ncue", *rc::gen::weightedOneOf<int> ({ { 3, rangeOf<int> (0, 5) }, { 2, rangeOf<int> (6, 100) }, { 1, rc::gen::element (99, 100) } })) ;
 	c.seti ("nloop", *rc::gen::element (0, 1, 2, 3, 16)) ;
 	c.seti ("frames", *rc::gen::element (1000, 1001, 1500)) ;
+	c.seti ("strmode", *rangeOf<int> (0, 4) == 0) ;
+	c.seti ("exact", *rangeOf<int> (0, 2) == 0) ;	// bext / cart passed in a heap block that ends with the text (datasize = offset of the text + its length, no terminator)
 	c.seti ("preset", *rangeOf<int> (0, 3) == 0) ;	// every item set once before with other values
 	c.seti ("late", *rc::gen::element (0, 0, 0, 1, 2)) ;	// 0: all before audio; 1: one more set of every item after typed audio; 2: after sf_write_raw audio
 	return c ;
@@ -94,6 +96,7 @@ static std::string crlf (const std::string &s)
 
 struct Meta
 {	std::vector<std::pair<int, std::string>> strings ;
+	bool exact = false ; std::pair<int, std::string> odd_string { 0, "" } ;	// a string type this container has no field for (set, not expected back; the file must stay intact)
 	SF_BROADCAST_INFO bext ; std::string history ;
 	SF_CART_INFO cart ; std::string tag ;
 	SF_CUES cues ; SF_INSTRUMENT inst ; std::vector<int> map ;
@@ -101,9 +104,13 @@ struct Meta
 
 static void gen_meta (Meta &m, const Case &c, int maj, int ch)
 {	Rng r ((uint64_t) c.geti ("seed")) ;
+	m.exact = c.geti ("exact", 0) != 0 ;
 	int sl = (int) c.geti ("strlen") ;
+	// strmode 1: exactly one string type is set (a container may then write a string chunk with nothing in it)
+	int only = c.geti ("strmode", 0) ? (int) (1 + r.below (SF_STR_LAST)) : 0 ;
+	{	std::vector<int> sup = string_types (maj) ; if (only && std::find (sup.begin (), sup.end (), only) == sup.end ()) m.odd_string = { only, gen_text (r, 1 + r.below (20), false) } ; }
 	for (int t : string_types (maj))
-	{	if (r.below (3) == 0) continue ;
+	{	if (only ? t != only : r.below (3) == 0) continue ;
 		size_t len = len_class (r, sl) ; if (t == SF_STR_SOFTWARE && len > 64) len = 64 ;	// the library appends its own suffix in a 128-byte staging buffer: longer software strings are a separate class (not generated)
 		m.strings.push_back ({ t, gen_text (r, len, true) }) ;
 	}
@@ -150,8 +157,14 @@ static void gen_meta (Meta &m, const Case &c, int maj, int ch)
 static bool set_item (SNDFILE *f, int item, Meta &m)
 {	switch (item)
 	{	case I_STR : { bool ok = true ; for (auto &s : m.strings) if (sf_set_string (f, s.first, s.second.c_str ()) != 0) ok = false ; return ok ; }
-		case I_BEXT : return sf_command (f, SFC_SET_BROADCAST_INFO, &m.bext, sizeof (m.bext)) == SF_TRUE ;
-		case I_CART : return sf_command (f, SFC_SET_CART_INFO, &m.cart, sizeof (m.cart)) == SF_TRUE ;
+		case I_BEXT :
+			if (m.exact && m.bext.coding_history_size > 0)
+			{	size_t n = offsetof (SF_BROADCAST_INFO, coding_history) + m.bext.coding_history_size ; Block b (n) ; memcpy (b.p, &m.bext, n) ; return sf_command (f, SFC_SET_BROADCAST_INFO, b.p, (int) n) == SF_TRUE ; }
+			return sf_command (f, SFC_SET_BROADCAST_INFO, &m.bext, sizeof (m.bext)) == SF_TRUE ;
+		case I_CART :
+			if (m.exact && m.cart.tag_text_size > 0)
+			{	size_t n = offsetof (SF_CART_INFO, tag_text) + m.cart.tag_text_size ; Block b (n) ; memcpy (b.p, &m.cart, n) ; return sf_command (f, SFC_SET_CART_INFO, b.p, (int) n) == SF_TRUE ; }
+			return sf_command (f, SFC_SET_CART_INFO, &m.cart, sizeof (m.cart)) == SF_TRUE ;
 		case I_CUE : return sf_command (f, SFC_SET_CUE, &m.cues, sizeof (m.cues)) == SF_TRUE ;
 		case I_INST : return sf_command (f, SFC_SET_INSTRUMENT, &m.inst, sizeof (m.inst)) == SF_TRUE ;
 		default : return m.map.empty () ? false : sf_command (f, SFC_SET_CHANNEL_MAP_INFO, m.map.data (), (int) (m.map.size () * sizeof (int))) == SF_TRUE ;
@@ -171,6 +184,7 @@ static std::string write_file (Written &w, const OpenSpec &s, int items, Meta &m
 		for (int it : seq) if (it != I_STR) set_item (f, it, first) ;
 	}
 	for (int it : seq) if (set_item (f, it, m)) w.accepted |= it ;
+	if (items && m.odd_string.first) sf_set_string (f, m.odd_string.first, m.odd_string.second.c_str ()) ;
 	if (late == 2)
 	{	// audio through sf_write_raw only (PCM_16 little endian containers get the same bytes as sf_write_short would give; others: whatever, twin does the same)
 		sf_count_t bytes = (sf_count_t) audio.size () * 2 ; sf_count_t bw = (sf_count_t) codec_of (s.format)->bytes * s.ch ; bytes -= bytes % bw ;
